@@ -32,6 +32,16 @@ type setOp struct {
 
 func (o setOp) String() string {
 	switch o.Op {
+	case "has":
+		return fmt.Sprintf("s%d.Has(%d)", o.Dst, o.Lo)
+	case "len":
+		return fmt.Sprintf("s%d.Len()", o.Dst)
+	case "string":
+		return fmt.Sprintf("s%d.String()", o.Dst)
+	case "equal":
+		return fmt.Sprintf("s%d.Equal(s%d)", o.Dst, o.A)
+	case "intersects":
+		return fmt.Sprintf("s%d.Intersects(s%d)", o.Dst, o.A)
 	case "new":
 		return fmt.Sprintf("s%d=New()", o.Dst)
 	case "add":
@@ -231,7 +241,34 @@ func setActions(st *setState, fail func(t *rapid.T, what string)) map[string]fun
 			do(t, setOp{Op: "complement", Dst: slot(t, "dst"), A: a, Limit: l})
 		},
 		"new": func(t *rapid.T) { do(t, setOp{Op: "new", Dst: slot(t, "dst")}) },
+		// observers with drawn arguments between the mutations: an implementation that
+		// remembers something about the last query must still answer the next one
+		"has":  func(t *rapid.T) { do(t, setOp{Op: "has", Dst: slot(t, "dst"), Lo: point(t, "x")}) },
+		"has2": func(t *rapid.T) { do(t, setOp{Op: "has", Dst: slot(t, "dst"), Lo: point(t, "x")}) },
+		// query, mutate, query on one set without any other call in between
+		"probe-insert-probe": func(t *rapid.T) {
+			d := slot(t, "dst")
+			do(t, setOp{Op: "has", Dst: d, Lo: point(t, "x1")})
+			a, b := point(t, "lo"), point(t, "hi")
+			if a > b {
+				a, b = b, a
+			}
+			do(t, setOp{Op: "addrange", Dst: d, Lo: a, Hi: b})
+			do(t, setOp{Op: "has", Dst: d, Lo: point(t, "x2")})
+			if rapid.Bool().Draw(t, "third") {
+				do(t, setOp{Op: "has", Dst: d, Lo: point(t, "x3")})
+			}
+		},
+		"query": func(t *rapid.T) {
+			do(t, setOp{Op: rapid.SampledFrom([]string{"len", "string", "equal", "intersects"}).Draw(t, "q"), Dst: slot(t, "dst"), A: slot(t, "a")})
+		},
 		"": func(t *rapid.T) {
+			// The full sweep of observers is itself a sequence of queries and would reset
+			// whatever an implementation remembers between calls, so it runs after some
+			// steps only; in between, the drawn observer actions are the only queries.
+			if rapid.IntRange(0, 2).Draw(t, "sweep?") != 0 {
+				return
+			}
 			if w := st.invariant(); w != "" {
 				fail(t, w)
 			}
@@ -341,6 +378,11 @@ func (st *setState) invariant() (what string) {
 				return fmt.Sprintf("s%d.Has(%d) = %v, model %v (model set %v)", i, x, got, want, m.norm())
 			}
 		}
+		for k := len(u) - 1; k >= 0; k -= 2 { // and in descending order, every other point
+			if got, want := s.Has(u[k]), m.has(u[k]); got != want {
+				return fmt.Sprintf("s%d.Has(%d) = %v (asked after larger values), model %v (model set %v)", i, u[k], got, want, m.norm())
+			}
+		}
 		st.cur = fmt.Sprintf("s%d.Len", i)
 		wantLen := m.length()
 		if got := s.Len(); got != wantLen {
@@ -423,6 +465,29 @@ func (st *setState) apply(o setOp) (what string) {
 		}
 	}
 	switch o.Op {
+	case "has":
+		if got, want := pool[o.Dst].Has(o.Lo), model[o.Dst].has(o.Lo); got != want {
+			return fmt.Sprintf("step %d: s%d.Has(%d) = %v, model %v (model set %v)", st.step, o.Dst, o.Lo, got, want, model[o.Dst].norm())
+		}
+		st.mark("query_between_mutations")
+	case "len":
+		if got, want := pool[o.Dst].Len(), model[o.Dst].length(); got != want {
+			return fmt.Sprintf("step %d: s%d.Len() = %d, model %d", st.step, o.Dst, got, want)
+		}
+	case "string":
+		if model[o.Dst].length() <= 64 {
+			if got, want := pool[o.Dst].String(), model[o.Dst].str(); got != want {
+				return fmt.Sprintf("step %d: s%d.String() = %q, model %q", st.step, o.Dst, got, want)
+			}
+		}
+	case "equal":
+		if got, want := pool[o.Dst].Equal(pool[o.A]), model[o.Dst].equal(model[o.A]); got != want {
+			return fmt.Sprintf("step %d: s%d.Equal(s%d) = %v, model %v", st.step, o.Dst, o.A, got, want)
+		}
+	case "intersects":
+		if got, want := pool[o.Dst].Intersects(pool[o.A]), model[o.Dst].intersects(model[o.A]); got != want {
+			return fmt.Sprintf("step %d: s%d.Intersects(s%d) = %v, model %v", st.step, o.Dst, o.A, got, want)
+		}
 	case "new":
 		pool[o.Dst], model[o.Dst] = set.NewSet(), nil
 	case "add":
@@ -527,6 +592,9 @@ func c16Shard(c *drv.Ctx, shard, checks int) (*drv.Stats, *drv.Violation, error)
 			}
 		}()
 		t.Repeat(setActions(sm, fail))
+		if w := sm.invariant(); w != "" {
+			fail(t, w)
+		}
 	}
 	res := drv.RunRapid("C16", checks, drv.ShardSeed(c.Seed, "c16", shard), time.Duration(c.Pick(20, 60))*time.Second, prop)
 	if res.Failed {
@@ -549,14 +617,14 @@ func init() {
 		return runSetCase(cs, nil), nil
 	})
 	drv.Register("C16",
-		"rapid-generated operation sequences (3-30 steps of Add/AddRange/Copy/Union/Complement/New over a pool of 4 sets; narrow universe [0,16] in 4 of 5 cases, otherwise code-point boundaries up to 0x110000), mirrored in a range-list model; after every step Has over the whole universe, Len, String, Copy, and Equal/Intersects for all 16 ordered pairs are compared. A sequence is non-trivial when it contains an insertion adjacent to, nested in or bridging existing ranges, touches 0 or the limit, or complements a set to the empty set (observers on a computed empty set); distinct = distinct operation sequence.",
+		"rapid-generated operation sequences (3-30 steps of Add/AddRange/Copy/Union/Complement/New and of observer calls with drawn arguments - Has, Len, String, Equal, Intersects - over a pool of 4 sets; narrow universe [0,16] in 4 of 5 cases, otherwise code-point boundaries up to 0x110000), mirrored in a range-list model; after one step in three on average, and at the end, Has over the whole universe (ascending, then descending), Len, String, Copy, and Equal/Intersects for all 16 ordered pairs are compared. A sequence is non-trivial when it contains an insertion adjacent to, nested in or bridging existing ranges, touches 0 or the limit, or complements a set to the empty set (observers on a computed empty set); distinct = distinct operation sequence.",
 		[]string{
 			"AddRange is only called with begin <= end and Complement(limit) only on sets whose elements are <= limit+1 (the only orders peg's own callers use); elements are code points in [0, 0x110000]",
 			"the model (unnormalised range list, membership by containment) is correct",
 		},
 		func(c *drv.Ctx) error {
-			total := c.Pick(3000, 320000)
-			procs := c.Pick(1, 16)
+			total := c.Pick(12000, 480000)
+			procs := c.Pick(4, 16)
 			return drv.RunSharded(c, "c16", total, procs, 30*time.Minute)
 		})
 }
